@@ -20,6 +20,10 @@ static std::string hex(const void* p, size_t n)
 }
 
 static std::unique_ptr<sandbox_t> g_sbx;
+static void cast_fn1() {}
+static void cast_fn2() {}
+static void cast_fn3() {}
+static void (*const g_cast_fns[3])() = { cast_fn1, cast_fn2, cast_fn3 };      // entries 1..3 of the sandbox's function table
 
 long echo_opq(long (*)(long), long);
 static g_t<long> guest_echo_opq(rep_t cb, g_t<long> v)
@@ -143,6 +147,30 @@ static std::string run_case(const toks_t& t)
       run(x);
     }
     out = "A " + std::to_string(res);
+  } else if (op == "pcastfn") {
+    // pcastfn <k> <T|V> <void|char|fn2>: a FUNCTION pointer (entry k of the sandbox's function table, 0 = null), held in
+    // application memory or in a sandbox cell, cast across the function / data boundary (or to another function type):
+    // the result designates what the C++ cast of the function's address designates
+    using fn_t = void (*)();
+    using fn2_t = int (*)(int);
+    unsigned k = static_cast<unsigned>(parse_u64(t.at(1)));
+    bool vol = t.at(2) == "V";
+    const std::string& to = t.at(3);
+    auto cell = sb.malloc_in_sandbox<fn_t>();
+    rep_t rep = static_cast<rep_t>(k);
+    std::memcpy(cell.UNSAFE_unverified(), &rep, sizeof(rep));
+    uintptr_t res = 0;
+    auto run = [&](auto& src) {
+      if (to == "void") res = reinterpret_cast<uintptr_t>(rlbox::sandbox_reinterpret_cast<void*>(src).UNSAFE_unverified());
+      else if (to == "char") res = reinterpret_cast<uintptr_t>(rlbox::sandbox_reinterpret_cast<char*>(src).UNSAFE_unverified());
+      else res = reinterpret_cast<uintptr_t>(rlbox::sandbox_reinterpret_cast<fn2_t>(src).UNSAFE_unverified());
+    };
+    if (vol) run(*cell);
+    else { rlbox::tainted<fn_t, Sbx> x = *cell; run(x); }
+    std::string who = "other:" + std::to_string(res);
+    if (res == 0) who = "null";
+    for (unsigned j = 0; j < 3; j++) if (res == reinterpret_cast<uintptr_t>(g_cast_fns[j])) who = "fn" + std::to_string(j + 1);
+    out = "A " + who;
   }
   return out;
 }
@@ -153,5 +181,6 @@ int main(int argc, char** argv)
   Sbx::fixed_base_hint = uintptr_t(1) << 44;
   g_sbx->create_sandbox(nullptr, false);
   g_base = g_sbx->get_sandbox_impl()->region_base();
+  for (auto f : g_cast_fns) g_sbx->get_sandbox_impl()->function_table.push_back(reinterpret_cast<const void*>(f));
   return case_loop(argc, argv, run_case);
 }
